@@ -153,9 +153,10 @@ def pr1(ctx, R):
 @rule("GR1", "a group created while walking the objects is never replaced by a later object of the same walk", floor=1)
 def gr1(ctx, R):
     prog = ctx.prog
-    rf = prog.func("tdms.TdmsFile._read_file")
+    from .region import region
+    top = prog.func("tdms.TdmsFile._read_file")
     n_stores = 0
-    for loop in [n for n in walk_body(rf.node) if isinstance(n, ast.For)]:
+    for rf, loop in [(f, n) for f in region(ctx, top, depth=2) if f.cls is top.cls for n in walk_body(f.node) if isinstance(n, ast.For)]:
         stores = []
         for n in ast.walk(loop):
             if isinstance(n, ast.Assign):
@@ -165,7 +166,7 @@ def gr1(ctx, R):
         over_objects = "object_metadata" in unparse(loop.iter)
         for st in stores:
             n_stores += 1
-            key = "tdms.TdmsFile._read_file::%s" % unparse(st)[:60]
+            key = "%s::%s" % (rf.qual, unparse(st)[:60])
             guarded = False
             # guarded by `k not in self._groups` or inside `except KeyError`
             for anc in ast.walk(loop):
@@ -539,16 +540,49 @@ def ofs1(ctx, R):
     yields = [n for n in walk_body(dc.node) if isinstance(n, ast.Yield) and n.value is not None]
     if not yields:
         raise AnchorMissing("tdms.TdmsFile.data_chunks: yield")
-    mutated = set()
-    for n in walk_body(dc.node):
-        if isinstance(n, ast.AugAssign) and isinstance(n.target, ast.Subscript) and isinstance(n.target.value, ast.Name):
-            mutated.add(n.target.value.id)
+    from .flow import resolve_call
+
+    def mutating_sites(f):
+        """{local name: [statement / call node]} for locals of f whose items are updated in f or in a helper they are passed to"""
+        out = {}
+        for n in walk_body(f.node):
+            if isinstance(n, (ast.AugAssign, ast.Assign)):
+                for t in ([n.target] if isinstance(n, ast.AugAssign) else n.targets):
+                    if isinstance(t, ast.Subscript) and isinstance(t.value, ast.Name):
+                        out.setdefault(t.value.id, []).append(n)
+            if isinstance(n, ast.Call):
+                for g, _k in resolve_call(prog, f, f.cls, n):
+                    if g.module.name != f.module.name or g.cls is not None and g.name == "__init__":
+                        continue
+                    ps = [p for p in g.params if not (g.cls is not None and not g.is_static and p in ("self", "cls"))]
+                    for i, a in enumerate(n.args):
+                        if isinstance(a, ast.Name) and i < len(ps):
+                            p = ps[i]
+                            if any(isinstance(x, (ast.AugAssign, ast.Assign)) and any(
+                                    isinstance(t, ast.Subscript) and isinstance(t.value, ast.Name) and t.value.id == p
+                                    for t in ([x.target] if isinstance(x, ast.AugAssign) else x.targets)) for x in walk_body(g.node)):
+                                out.setdefault(a.id, []).append(n)
+        return out
+    msites = mutating_sites(dc)
+    mutated = set(msites)
     y = yields[0]
     if not isinstance(y.value, ast.Call):
         R.undecided("tdms.TdmsFile.data_chunks::yielded value", dc.where(y), "not a constructor call")
         return
     acc_args = [(i, a.id) for i, a in enumerate(y.value.args) if isinstance(a, ast.Name) and a.id in mutated]
     if not acc_args:
+        counters = []
+        for a in y.value.args:
+            if isinstance(a, ast.Name):
+                for n in walk_body(dc.node):
+                    if isinstance(n, ast.Assign) and any(isinstance(t, ast.Name) and t.id == a.id for t in n.targets) and (
+                            (isinstance(n.value, ast.Call) and call_name(n.value) in ("defaultdict", "collections.defaultdict", "dict", "OrderedDict")) or
+                            (isinstance(n.value, ast.Dict) and not n.value.keys) or (isinstance(n.value, ast.Constant) and n.value.value == 0)):
+                        counters.append(a.id)
+        if counters:
+            R.violation("tdms.TdmsFile.data_chunks::count advanced after the yield", dc.where(y), "the offsets handed to the chunk (`%s`) start at zero and are "
+                        "never advanced: every chunk reports offset 0" % counters[0])
+            return
         R.ok("tdms.TdmsFile.data_chunks::no accumulator passed", dc.where(y), "the yielded object receives plain values")
         return
     seen = set()
@@ -592,8 +626,27 @@ def ofs1(ctx, R):
     for i, nm in acc_args:
         check_ctor(y.value.func.id if isinstance(y.value.func, ast.Name) else "", i)
     # and the count is advanced after the yield by the number of values delivered
-    after = [n for n in walk_body(dc.node) if isinstance(n, ast.AugAssign) and isinstance(n.op, ast.Add) and "len(" in unparse(n.value)]
-    R.check(bool(after) and all(n.lineno > y.lineno for n in after), "tdms.TdmsFile.data_chunks::count advanced after the yield", dc.where(),
+    cfg = ctx.cfg(dc)
+    acc_names = {nm for _i, nm in acc_args}
+    adv_nodes = set()
+    for nm in acc_names:
+        for site in msites.get(nm, []):
+            adv_nodes |= set(cfg.where(lambda n, site=site: n.ast is site or any(c is site for c in node_calls(n))))
+            # an inner loop that performs the update for each item counts as the update
+            for L in walk_body(dc.node):
+                if isinstance(L, (ast.For, ast.While)) and any(x is site for x in ast.walk(L)) and not any(x is y for x in ast.walk(L)):
+                    adv_nodes |= set(cfg.where(lambda n, L=L: n.ast is L))
+    yn = cfg.where(lambda n: n.ast is not None and any(x is y for x in ast.walk(n.ast)) and n.kind == "stmt")
+    heads = cfg.where(lambda n: n.kind == "for" and any(x is y for x in ast.walk(n.ast)))
+    ok_adv = bool(adv_nodes) and bool(yn)
+    for n in yn:
+        r = cfg.reach([m for m, k in n.succ if k not in ("exc", "uncaught") and m not in adv_nodes], avoid=lambda m: m in adv_nodes, follow_exc=False)
+        if any(h in r for h in heads):
+            ok_adv = False
+        # and not before the yield in the same iteration
+        if any(cfg.dominated_by(n, lambda m, a=a: m is a)[0] and a.lineno > (heads[0].lineno if heads else 0) and a.lineno < n.lineno for a in adv_nodes):
+            ok_adv = False
+    R.check(ok_adv, "tdms.TdmsFile.data_chunks::count advanced after the yield", dc.where(),
             "offsets are the running count of values already delivered", "the running count is not advanced by len(data) after each yield")
     cdc = prog.func("tdms.TdmsChannel.data_chunks")
     after = [n for n in walk_body(cdc.node) if isinstance(n, ast.AugAssign) and isinstance(n.op, ast.Add) and "len(" in unparse(n.value)]
